@@ -569,6 +569,24 @@ theorem C08_loop_condition_order_witness :
     (Mon.run (trace swappedCfg)).sch 0 = 1 ∧ (Mon.run (trace swappedCfg)).wr 0 = 0 ∧ swappedCfg.1.queue = [0] :=
   ⟨runSched_reach _ _ _, by decide⟩
 
+/-! ### The time-out alternative of `collectValues` is load-bearing -/
+
+set_option maxRecDepth 8000 in
+/-- With `collectValues` lacking its time-out alternative (a nil timer channel for a "disabled" time-out) and a
+`StopBatchWriter` that wakes the writer with a flush request instead (the two cooperating edits of seeded change
+r6-3) the protocol violates the statement: a producer is past its running check when Stop clears `running`; the
+writer consumes the wake-up flush (empty batch), comes back to its select because the counter is 1; the producer sends;
+the object is reset, counted down and written into a batch that is not full — and nothing ever wakes the writer again:
+the object is written and never committed, Stop is inside `writeWg.Wait()` for ever, no thread can move. -/
+theorem C08_timeout_alternative_needed_witness :
+    Reach sysNoTimer (initSt 1 2, witnessThreads 1 (fun _ => 0)) noTimerCfg ∧
+    Deadlock sysNoTimer (fun t => t.finished = true) noTimerCfg ∧
+    noTimerCfg.2[1]? = some (.stopper 0 .wait) ∧ noTimerCfg.1.wpc = .sel ∧ noTimerCfg.1.batch = [0] ∧
+    (Mon.run (trace noTimerCfg)).wr 0 = 1 ∧ (Mon.run (trace noTimerCfg)).com 0 = 0 ∧
+    trace noTimerCfg = [.enqCall 0 0, .hook 0, .stopCall 0, .schedNew 0, .enqRet 0 0, .reset 0, .write 0 1] :=
+  ⟨runSched_reach _ _ _, ⟨stuck_of_stuckB (by decide), .stopper 0 .wait, by decide, by decide⟩, by decide, by decide,
+    by decide, by decide, by decide, by decide⟩
+
 /-! ### Regenerated tie: the synchronisation skeletons the protocol model was written against
 
 `Hive/Gen/C08_Skel.lean` is regenerated from kvstore/batch_writer.go and batch_collector.go on every run.  The
